@@ -42,6 +42,10 @@ type Case struct {
 	// ReadPush (s1): producers push with (read-push stream c) from a stream
 	// that delivers Chunk numbers per read instead of with channel-push.
 	ReadPush bool `json:"read_push,omitempty"`
+	// Nils (s1, consumers that range only): after every second item a
+	// producer also pushes nil - an ordinary item, which only range can tell
+	// from "closed"
+	Nils bool `json:"nils,omitempty"`
 	Chunk    int  `json:"chunk,omitempty"`
 	// s2 / s3
 	R     int      `json:"r,omitempty"`
@@ -140,6 +144,11 @@ func (e *engine) Generate(seed uint64, idx int, tier string, avoid []harness.Fin
 		}
 		if r.Pct(20) {
 			c.ReadPush, c.Chunk, c.SleepMs = true, 1+r.Intn(5), 0
+		} else if r.Pct(25) {
+			c.Nils = true
+			for i := range c.Cons {
+				c.Cons[i] = "range"
+			}
 		}
 	case x < 54:
 		c.Scen = "s2"
@@ -234,6 +243,9 @@ func (c *Case) program(sfx string) program {
 				// rps<p> is bound by the harness to a stream of the same numbers
 				fmt.Fprintf(&b, " (run (progn (read-push rps%d c) (channel-push pd 1)))\n", p)
 				continue
+			}
+			if c.Nils {
+				sl += " (when (oddp i) (channel-push c nil))"
 			}
 			fmt.Fprintf(&b, " (run (progn (dotimes (i %d) (channel-push c (+ %d i))%s) (channel-push pd 1)))\n", c.N, (p+1)*1000, sl)
 		}
@@ -810,10 +822,15 @@ func (c *Case) judgeS1(out runOut) *harness.Violation {
 	ticks := map[int]int{}
 	closedSeen := false
 	done := map[int]bool{}
+	nils := 0
 	for _, m := range out.marks {
 		f := fields(m.text)
 		switch f[0] {
 		case "got":
+			if f[2] == "nil" {
+				nils++
+				continue
+			}
 			k, x := atoi(f[1]), atoi(f[2])
 			got[x]++
 			perCons[k] = append(perCons[k], x)
@@ -845,6 +862,13 @@ func (c *Case) judgeS1(out runOut) *harness.Violation {
 	}
 	for x, n := range got {
 		return viol("conservation", "item %d was received %d times but never pushed", x, n)
+	}
+	wantNils := 0
+	if c.Nils {
+		wantNils = c.P * (c.N / 2)
+	}
+	if nils != wantNils {
+		return viol("conservation", "%d nil items were pushed (nil is an ordinary item) but %d were received (P=%d N=%d cap=%d consumers=%v)", wantNils, nils, c.P, c.N, c.Cap, c.Cons)
 	}
 	for k, xs := range perCons {
 		if k < len(c.Cons) && c.Cons[k] == "select-spawn" {
@@ -1117,6 +1141,7 @@ func (e *engine) Shrink(raw json.RawMessage) (out []json.RawMessage) {
 		func(n *Case) bool { n.N = 1; return c.N > 2 },
 		func(n *Case) bool { n.Iter--; return c.Iter > 1 },
 		func(n *Case) bool { n.SleepMs = 0; return c.SleepMs > 0 },
+		func(n *Case) bool { n.Nils = false; return c.Nils },
 		func(n *Case) bool { n.TimeJumpPct = 0; return c.TimeJumpPct > 0 },
 		func(n *Case) bool { n.Cap = 0; return c.Cap > 0 },
 	} {
@@ -1131,7 +1156,7 @@ func (e *engine) Shrink(raw json.RawMessage) (out []json.RawMessage) {
 			n.Cons = append(n.Cons[:i:i], c.Cons[i+1:]...)
 			emit(fresh(n))
 		}
-		if c.Cons[i] != "pop" {
+		if c.Cons[i] != "pop" && !c.Nils { // (only range tells a nil item from "closed")
 			n := clone()
 			n.Cons[i] = "pop"
 			emit(fresh(n))
